@@ -596,6 +596,13 @@ def _solve_open_part(g, res):
                                   "detail": {"grid": U.spec_id(g.spec), "kind": kind, "terms": list(terms), "dt": dt}})
 
 
+def weight(case):
+    sh = case["grid"]["shape"]
+    n = int(np.prod([k + 2 for k in sh]))
+    w = {"op": 1, "tvd": 3 ** (max(sh) + 2) / 20.0, "periodic_op": 1, "solve_closed": 2 ** len(sh) * 3, "solve_open": 1}[case["part"]]
+    return n * len(sh) * w
+
+
 def run_case(case):
     g = Grid(case["grid"])
     res = {"evals": 0, "nontrivial": 0, "findings": [], "outcomes": {}}
